@@ -1671,7 +1671,7 @@ def _t_eval(target, _t, scope):
                     cur = ~cur
                 elif op == '_':
                     cur = -cur
-            except (TypeError, ZeroDivisionError) as e:
+            except (TypeError, ArithmeticError, ValueError) as e:
                 pae = PathAccessError(e, Path(_t), i // 2)
         if pae:
             raise pae
